@@ -499,3 +499,48 @@ func CallReturns(fn func(), grace time.Duration) (returned bool, blocked string)
 	}
 	return false, ""
 }
+
+// NearVersion returns a Version value that is not the string "2.0" but that number-minded, trimming or
+// Unicode-folding comparison code might take for it.
+func NearVersion(r *rand.Rand) string {
+	return pick(r, []string{"2.00", "02.0", "+2.0", "2.+0", "2.-0", "002.000", " 2.0", "2.0 ", "2.0\n", "\t2.0", "2", "2.", ".0", "2.0.0", "2,0", "2.0e0", "2e0", "0x2.0",
+		"\uff12.\uff10", "2\u200b.0", "2.O", "2_0", "v2.0", "2.0;1.1", "2.0 1.1", "1.1 2.0", "20", "2 .0", "-2.0", "2.0.", "２.0", "2.1", "3.0", "1.0", "2.0-rc1"})
+}
+
+// IssuerFormats are Format attribute values an Issuer element may carry; whichever it is, the element's value is what
+// the configured IdP issuer is compared with.
+var IssuerFormats = []string{"urn:oasis:names:tc:SAML:2.0:nameid-format:entity", "urn:oasis:names:tc:SAML:1.1:nameid-format:unspecified",
+	"urn:oasis:names:tc:SAML:1.1:nameid-format:emailAddress", "urn:oasis:names:tc:SAML:2.0:nameid-format:persistent", "urn:oasis:names:tc:SAML:2.0:nameid-format:transient",
+	"", "urn:example:custom-format", "entity", "urn:oasis:names:tc:SAML:2.0:nameid-format:entity "}
+
+// OtherUse makes some calls of the provider's other API families (metadata, outgoing requests) the way an application
+// does between configuring a provider and validating with it. None of them is documented to change the configuration;
+// their own results and failures are other monitors' business.
+func OtherUse(r *rand.Rand, sp *saml2.SAMLServiceProvider) string {
+	done := ""
+	if sp.SPKeyStore == nil && sp.SPSigningKeyStore == nil {
+		sp.SPKeyStore = &RSAKeyStore{C: sim.Wide(sim.K("spenc"), sp.Clock.Now())} // metadata needs the SP to own a key pair
+	}
+	try := func(name string, f func()) {
+		defer func() { _ = recover() }()
+		f()
+		done += name + " "
+	}
+	for i := 1 + r.IntN(3); i > 0; i-- {
+		switch r.IntN(6) {
+		case 0:
+			try("Metadata", func() { _, _ = sp.Metadata() })
+		case 1:
+			try("MetadataWithSLO", func() { _, _ = sp.MetadataWithSLO(int64(r.IntN(100))) })
+		case 2:
+			try("BuildAuthRequest", func() { _, _ = sp.BuildAuthRequest() })
+		case 3:
+			try("BuildAuthURL", func() { _, _ = sp.BuildAuthURL("relay") })
+		case 4:
+			try("BuildAuthBodyPost", func() { _, _ = sp.BuildAuthBodyPost("relay") })
+		case 5:
+			try("BuildLogoutRequestDocument", func() { _, _ = sp.BuildLogoutRequestDocument("someone", "session-1") })
+		}
+	}
+	return done
+}
